@@ -438,3 +438,64 @@ def rule_tpl_selfassoc(ctx):
                         {"template": t.text()[:300]},
                     )
     ctx.floor("Self::<assoc> uses", n, 5)
+
+
+def rule_generics_preserve(ctx):
+    """GEN-PRESERVE: every helper of utils.rs that derives a new `Generics` from the item's (`add_extra_*`, `add_where_clauses_for_new_ident`) returns a *clone of its input* with something added - directly, or by delegating to another such helper on (a preserved copy of) its input. Re-building the value from tokens (`parse_quote! { <..> }`) keeps the parameters but loses the where-clause, so the user's `where T: Copy` is dropped from the generated impl; `add_extra_where_clauses` keeps the old predicates."""
+    f = ctx.files.get("impl/src/utils.rs")
+    if f is None:
+        raise A.AnchorLost("impl/src/utils.rs", "missing")
+    fam = {}
+    for fn in A.functions(f):
+        if fn.impl is not None or fn.block is None:
+            continue
+        out = fn.node["sig"].get("output")
+        rt = " ".join(A.path_str(t) or "" for t, _ in A.find(out, "Type::Path")) if out else ""
+        if rt.split("::")[-1] != "Generics":
+            continue
+        gp = None
+        for p in fn.node["sig"]["inputs"]:
+            if A.kind(p) == "FnArg::Typed" and "Generics" in " ".join(A.path_str(t) or "" for t, _ in A.find(p["0"]["ty"], "Type::Path")):
+                ns = A.pat_idents(p["0"]["pat"])
+                gp = ns[0] if ns else None
+        if gp:
+            fam[fn.name] = (fn, gp)
+    ctx.floor("Generics-deriving helpers", len(fam), 5)
+    for name, (fn, gp) in sorted(fam.items()):
+        lets = {}
+        for st, _ in A.find(fn.block, "Stmt::Local"):
+            ns = A.pat_idents(st["pat"])
+            if len(ns) == 1 and st.get("init"):
+                lets[ns[0]] = st["init"]["expr"]
+
+        def preserved(e, depth=0):
+            while A.kind(e) in ("Expr::Reference", "Expr::Paren"):
+                e = e["expr"]
+            k = A.kind(e)
+            if k == "Expr::Path":
+                nm = A.path_str(e)
+                if nm == gp:
+                    return True
+                if nm in lets and depth < 5:
+                    return preserved(lets[nm], depth + 1)
+                return False
+            if k == "Expr::MethodCall" and e["method"]["sym"] == "clone":
+                return preserved(e["receiver"], depth)
+            if k == "Expr::Call" and A.kind(e["func"]) == "Expr::Path" and A.path_str(e["func"]).split("::")[-1] in fam and e["args"]:
+                return preserved(e["args"][0], depth)
+            return False
+
+        st = fn.block["stmts"]
+        tail = st[-1]["0"] if st and A.kind(st[-1]) == "Stmt::Expr" and not st[-1].get("1") else None
+        ctx.instance(f"genpreserve:{name}", sample={"fn": name, "returns": A.render(tail)[:80] if tail else None})
+        if tail is None or not preserved(tail):
+            ctx.report(
+                f"genpreserve:{name}",
+                ctx.where(f, fn.node),
+                f"`{name}` returns `{A.render(tail)[:100] if tail else '?'}`, which is not (a helper applied to) a clone of its input `{gp}`: a `Generics` re-built from tokens has no where-clause, so the deriving type's own `where` predicates vanish from the generated impl (E0277 inside the derive for `struct S<T>(T) where T: Copy`)",
+                {},
+            )
+    wc = fam.get("add_extra_where_clauses")
+    ctx.instance("genpreserve:old-predicates")
+    if wc is None or A.wsearch(A.fn_text(wc[0]), "if let Some(old_where)=new_generics.where_clause{type_where_clauses.predicates.extend(old_where.predicates)}") is None:
+        ctx.report("genpreserve:old-predicates", ctx.where(f, wc[0].node) if wc else "impl/src/utils.rs", "`add_extra_where_clauses` no longer appends the item's existing where-predicates to the added ones", {})
